@@ -237,6 +237,11 @@ class Seek:
         # length - offset; the repository's own test pins that behaviour)
         return implies(from_what == 2, self_post._offset == length(self) + n_bytes)
 
+    def ensures_from_end_relative_to_the_length_of_this_view(self, n_bytes, from_what, self_post):
+        # (implied by the clause above; holds on the pinned tree, so a seek that goes anywhere else than the recorded finding
+        #  fails THIS obligation, which is not a known finding)
+        return implies(from_what == 2, self_post._offset == length(self) + n_bytes or self_post._offset == length(self) - n_bytes)
+
     def ensures_frame(self, self_post):
         return frame_view(self, self_post)
 
